@@ -465,3 +465,10 @@ def r15_10(ctx):
                         swallowed.append(m.group(0)[:40])
         ctx.check(f"%ignore {name}", not swallowed, "matches white space only", f"swallows {sorted(set(swallowed))[:3]}: code between two comments (or after `//`) would vanish without an exception" if swallowed else "white space only",
                   gm.where(name) if name in gm.text else gm.where("IDENTIFIER"))
+
+
+@rule("R15.11", "C15", "an instruction is replaced by a NOP only when its (normalised) name IS on the no-op list - not when it merely begins like a listed name", min_instances=8)
+def r15_11(ctx):
+    from .c13 import r13_4
+
+    r13_4(ctx)
